@@ -8,12 +8,17 @@
        (the buffer encoder has no panic site at all: its model is a total option function);
    (c) for decode() and for any number of next() calls of decode_streaming;
    (d) for every source (slice/iterator, io::Read, embedded-hal), every fault schedule and
-       every sequence of read / next / read_nb / next_nb calls for decoded bytes.
+       every sequence of read / next / read_nb / next_nb calls for decoded bytes;
+   [C05_readers]: the same for every target type (DecodedBytes, File, Parser - for Parser the
+       drained event sequence contains no panic either), for sources that deliver bytes
+       (< 256) and fewer than 2^32 events: the decoder hands the parsers a byte string no
+       longer than the stream it came from ([WInv]), so C06 applies to it.
    Termination holds by construction (structural recursion on the input; fuelled recursions
    are shown never to exhaust their fuel).  This file contains the statement only. *)
 Require Export Sml.Base.Prelude Sml.Base.Crc Sml.Spec.Frame Sml.Model.Decode Sml.Model.Encode.
 Require Export Sml.Model.Frontends Sml.Model.Parser Sml.Model.Reader.
 Require Export Sml.Proofs.DecodeGuard Sml.Proofs.EncodeCorrect Sml.Proofs.TransportTotal.
+Require Export Sml.Proofs.ParserTotal Sml.Proofs.PayloadBound.
 
 Theorem C05_total :
   (forall (cap : cap_t) (ops : list op),
@@ -32,6 +37,16 @@ Proof.
   intros cap kind evs calls H. apply sr_calls_bytes_no_panic; [apply GInv_init|exact H].
 Qed.
 Print Assumptions C05_total.
+
+Theorem C05_readers : forall (cap : cap_t) (kind : skind) (evs : list sev) (calls : list (meth * target)),
+  Forall (fun e => match e with SByte b => b < 256 | _ => True end) evs -> lenN evs < 4294967296 ->
+  forallb (fun c => negb (match c with
+                          | CItem IPanic => true
+                          | CItem (IEvents l) => existsb (fun x => match x with SPanic => true | _ => false end) l
+                          | _ => false
+                          end)) (sr_calls cap calls (rd_new kind evs)) = true.
+Proof. exact sr_calls_no_panic_new. Qed.
+Print Assumptions C05_readers.
 
 (* the panic values are real: a decoder state violating the guard invariant does panic *)
 Example C05_panic_value_reachable_outside_invariant :
